@@ -297,6 +297,13 @@ def _slot_scales(env, ps, lay, qp):
 
 # ---------------------------------------------------------------------------------------------
 
+def _raised_in_derivs(exc):
+    """True when the innermost frame of the traceback is the body of lmp.derivs itself (not a closure)"""
+    import traceback
+    tb = traceback.extract_tb(exc.__traceback__)
+    return bool(tb) and tb[-1].name == 'derivs' and tb[-1].filename.endswith('lmp.py')
+
+
 def _tamoc():
     from tamoc import lmp, seawater, bent_plume_model
     return {'lmp': lmp, 'seawater': seawater, 'bpm': bent_plume_model}
@@ -358,8 +365,8 @@ def _case(scn, k, q_prev, t_prev, q, t, flags, mode, tag):
 def run(ctx, lean_ok):
     tam = _tamoc()
     r = ctx.rng
-    nscn = ctx.n(24, 300)
-    rows_per = ctx.n(4, 8)
+    nscn = ctx.n(24, 200)
+    rows_per = ctx.n(4, 6)
     pert_per = ctx.n(4, 6)
     states = []        # (case, result)
     nfail_build = 0
@@ -368,6 +375,9 @@ def run(ctx, lean_ok):
         try:
             bpm, prf, parts = scen_bpm.simulate(scn)
         except Exception as e:                      # a scenario the simulator rejects is C20's business, not C03's
+            if _raised_in_derivs(e):                # ... unless it is the assembly itself that raises
+                ctx.violation('derivs-raises', 'lmp.derivs raises %s during a simulation of a valid scenario: %s' % (type(e).__name__, e),
+                              {'scenario': scn})
             ctx.count('scenario-rejected:' + type(e).__name__)
             nfail_build += 1
             continue
@@ -402,6 +412,8 @@ def run(ctx, lean_ok):
                     with np.errstate(all='ignore'):
                         res = eval_state(tam, bpm, prf, parts, q_prev, t_prev, q, t, flags, mode)
                 except Exception as e:
+                    if _raised_in_derivs(e):
+                        ctx.violation('derivs-raises', 'lmp.derivs raises %s on a state: %s' % (type(e).__name__, e), case)
                     ctx.count('state-rejected:' + type(e).__name__)
                     continue
                 states.append((case, res))
